@@ -440,3 +440,50 @@ def g6(ctx):
 
 
 RULES.append(g6)
+
+
+@rule("G7", doc="a derived self-symmetry is stored only if it permutes the class's slots: the two invocations it is read off must have the same slot set (else the class has to shrink — that is a union, not a group element)")
+def g7(ctx):
+    crate = ctx.lib()
+    sw = set(C.slot_writers(crate))
+    leaders = set(C.leader_union_functions(crate)) | set(C.leader_helpers(crate))
+    n = 0
+    for b in crate.fns():
+        if b.id in leaders or b.id in sw:
+            continue
+        adds = [c for c in b.all_calls() if c.callee and c.callee.is_("add", "group::Group") and c.args and role_mentions_field(c.body.role_of_operand(c.args[0]), "classes")]
+        for c in adds:
+            n += 1
+            sub = c.body
+            # the permutation: compose(Y.m, inverse(X.m))
+            pr = sub.role_of_operand(c.args[1])
+            comp = [x for x in role_walk(pr) if isinstance(x, tuple) and x[0] == "call" and x[1] == "compose" and len(x[3]) == 2]
+            ok = False
+            seen = []
+            if comp:
+                y = strip_role(comp[0][3][0])
+                x_ = strip_role(comp[0][3][1])
+                ybase = strip_role(y[1]) if isinstance(y, tuple) and y[0] == "field" and y[2] == "m" else None
+                xinv = x_[3][0] if isinstance(x_, tuple) and x_[0] == "call" and x_[1] == "inverse" and x_[3] else None
+                xbase = None
+                if xinv is not None:
+                    xi = strip_role(xinv)
+                    xbase = strip_role(xi[1]) if isinstance(xi, tuple) and xi[0] == "field" and xi[2] == "m" else None
+                for e, cond in C.conditions_at(sub, c.bb):
+                    if cond[0] == "eq" and len(cond) == 3:
+                        l_, r_ = strip_role(cond[1]), strip_role(cond[2])
+                        if all(isinstance(z, tuple) and z[0] == "call" and z[1] == "slots" and z[3] for z in (l_, r_)):
+                            bases = {role_str(strip_role(l_[3][0])), role_str(strip_role(r_[3][0]))}
+                            seen.append(sorted(bases))
+                            if ybase is not None and xbase is not None and bases == {role_str(ybase), role_str(xbase)}:
+                                ok = True
+                    if cond[0] == "true" and isinstance(strip_role(cond[1]), tuple) and strip_role(cond[1])[0] == "call" and strip_role(cond[1])[1] == "is_perm":
+                        ok = True
+            ctx.check(ok, "derived-symmetry-is-a-permutation:" + C.fkey(b),
+                      "%s stores the derived symmetry only when both invocations have the same slot set" % C.short(b.id),
+                      "%s adds b.m ; a.m^-1 to the class group without having established slots(a) == slots(b) (guards seen: %s). When a symmetric child lets a variant of the e-node move a class slot onto a slot that is redundant in the node, the map is not a permutation of the class's slots: Group::contains then indexes a missing key (panic in rebuild) — the class slot is redundant and the class must shrink instead" % (C.short(b.id), seen),
+                      where_of(sub, c.bb))
+    ctx.floor("derived-symmetry add sites", n, 1)
+
+
+RULES.append(g7)
